@@ -774,7 +774,7 @@ pub fn shrink(p: &Plan, assert_id: &str, reg: &[TypeEntry]) -> (Plan, u32) {
                 break 'outer;
             }
             budget -= 1;
-            let o = (e.run)(&c, Default::default());
+            let o = e.run(&c, Default::default());
             if o.harness_error.is_none() && o.failure.as_ref().map(|f| f.assert_id) == Some(assert_id) {
                 cur = c;
                 steps += 1;
@@ -1058,7 +1058,7 @@ pub fn shrink_j(p: &JPlan, assert_id: &str, reg: &[TypeEntry]) -> (JPlan, u32) {
                 break 'outer;
             }
             budget -= 1;
-            let o = (e.run_json)(&c, Default::default());
+            let o = e.run_json(&c, Default::default());
             if o.harness_error.is_none() && o.failure.as_ref().map(|f| f.assert_id) == Some(assert_id) {
                 cur = c;
                 steps += 1;
